@@ -486,7 +486,7 @@ class C19(Prop):
                    'parses, packet + partial delimiter does not parse',
                    'the value of a failed remote event (type, exception, traceback as text) is opaque: one marker',
                    'not covered: invalid UTF-8, floats, recursion-depth errors of json, meta given as non-empty array, '
-                   'both parties sending calls at the same time on one connection; several connections on one called side are tied per connection by K and the oracle, not by a theorem']
+                   'both parties sending calls at the same time on one connection; several connections on one called side: hub model (C19_hub_*), honest schedules']
 
     def __init__(self):
         self.stats = {}
@@ -1002,12 +1002,28 @@ class C19(Prop):
             tb = self._tb.get(canon(c))
             if tb is None:
                 return None
-            terms = []
-            for i in range(len(c['events'])):
-                sc = self.spoke_case(c, i)
-                self._tb[canon(sc)] = tb
-                terms.append(self.model_term(sc))
-            return 'Tl [%s]' % '; '.join(terms)
+            # the hub model: one state per connection, the steps in the order of the schedule, tagged with their
+            # connection (Model/NodeProto.v, Section Hub; legacy = false)
+            td, tl, _ = tb
+            s2c = c['hub'] == 'node'
+            sched = []
+            for op in c['ops']:
+                k, sp_ops = op[-1], None
+                if op[0] == 'send':
+                    sp = c['events'][k][op[1]]
+                    mode = {'call': 'MCall', 'attr': 'MNoResAttr'}.get(sp.get('mode', 'call'), 'MNoResApi')
+                    t = 'OSend %s %s' % (event_term(sp, [sp['chan']] if sp['chan'] is not None else ([] if s2c else ['*'])), mode)
+                elif op[0] in ('ab', 'ba'):
+                    t = '%s %d%%nat' % ('OAB' if op[0] == 'ab' else 'OBA', op[1])
+                elif op[0] in ('abp', 'bap'):
+                    t = 'OABP' if op[0] == 'abp' else 'OBAP'
+                else:
+                    return None
+                sched.append('(%d%%nat, %s)' % (k, t))
+            chans = ['(JStr %s)' % nl(self.spoke_case(c, i)['callee_chan']) for i in range(len(c['events']))]
+            return 'obs_hub %s %s %s %s %s %s %s %s %s [%s] [%s]' % (
+                self.excl(), td, tl, nl(nprotocol.DELIMITER), strs(ECHO), strs(NIL), strs(GEN), strs(BOOM), strs(LATE),
+                '; '.join(chans), '; '.join(sched))
         if k == 'load':
             return 'obs_load %s %s' % (self.excl(), jt(c['j']))
         if k == 'loadv':
